@@ -70,7 +70,12 @@ def serialise(items, fmt):
                 out.append("&%s;" % table[x["c"]])
         elif t == "lit":
             s = "".join(chr(c) for c in x["s"])
-            if x.get("raw"):
+            if x.get("cdata"):
+                # a CDATA section is one more spelling of literal text in XML
+                if fmt != "DFXP" or "]]>" in s:
+                    return None
+                out.append("<![CDATA[%s]]>" % s)
+            elif x.get("raw"):
                 if fmt != "WebVTT":
                     return None
                 out.append(s)
@@ -184,6 +189,28 @@ def inputs(ctx):
                 items = (chs("ab") + [{"t": "wrap"}] + chs(lead) + [{"t": "tag", "kind": kind, "open": True}] + chs("ef") +
                          [{"t": "tag", "kind": kind, "open": False}] + chs(trail) + [{"t": "wrap"}] + chs("ij"))
                 ins.append({"id": "k%d" % n, "fmt": fmt, "cues": [items, chs("z")]})
+                n += 1
+    # CDATA sections (DFXP): literal text that needs no escaping, alone, between characters, in a span
+    def cd(text):
+        return {"t": "lit", "s": [ord(c) for c in text], "raw": False, "cdata": True}
+    for text in ("a < b && c > d", "plain", "x]]y", "&amp; stays", "<i>not a tag</i>", " padded "):
+        for items in ([cd(text)], chs("if ") + [cd(text)] + chs(" then"),
+                      chs("p ") + [{"t": "tag", "kind": "span", "open": True}, cd(text), {"t": "tag", "kind": "span", "open": False}] + chs(" q"),
+                      [cd(text), {"t": "br"}] + chs("next")):
+            if serialise(items, "DFXP") is not None and _admissible(items, "DFXP"):
+                ins.append({"id": "k%d" % n, "fmt": "DFXP", "cues": [items, chs("z")]})
+                n += 1
+    # a hexadecimal and a decimal reference written with the same digits (&#x41; is 'A', &#41; is ')'),
+    # in one cue, in two cues of one document, in either order
+    for hx in (0x41, 0x65, 0x38, 0x60, 0x21, 0x79):
+        dc = int("%x" % hx)
+        a = {"t": "ent", "c": hx, "sp": "hex"}
+        b = {"t": "ent", "c": dc, "sp": "dec"}
+        for fmt in ("DFXP", "SAMI"):
+            for first, second in ((a, b), (b, a)):
+                ins.append({"id": "k%d" % n, "fmt": fmt, "cues": [chs("x") + [first] + chs("y") + [second], chs("z")]})
+                n += 1
+                ins.append({"id": "k%d" % n, "fmt": fmt, "cues": [chs("x") + [first], chs("y") + [second]]})
                 n += 1
     vocab_ch = [97, 98, 32, 38, 60, 62, 39, 34, 233, 0x4e2d, 0x1f600, 45, 59, 35]
     for k in range(800 if ctx.quick else 40000):
